@@ -16,12 +16,9 @@ From Utp Require Import Base.Prelude Wire.SeqNr Wire.Header Rtt.Rtte Mtu.SegSize
 Definition oos_fin (lc : Z) (h : chdr) : bool :=
   ptype_eqb (ch_type h) ST_FIN && negb (ch_seq h =? wadd16 lc 1).
 
-Definition peer_fin_poll_ok2 (pending : list chdr) (st : fstep) : bool :=
+Definition peer_fin_poll_body (pending : list chdr) (st : fstep) : bool :=
   let pre := fs_pre st in
   let post := fs_post st in
-  match fs_result st with
-  | FrPoll PollPanic _ _ _ => true
-  | _ =>
   match pending with
   | [] => true
   | _ =>
@@ -50,8 +47,13 @@ Definition peer_fin_poll_ok2 (pending : list chdr) (st : fstep) : bool :=
           else true
       | _, _ => true
       end
-  end
   end.
+
+Definition is_panic_result (r : fresult) : bool :=
+  match r with FrPoll PollPanic _ _ _ => true | _ => false end.
+
+Definition peer_fin_poll_ok2 (pending : list chdr) (st : fstep) : bool :=
+  if is_panic_result (fs_result st) then true else peer_fin_poll_body pending st.
 
 (* the walk of peer_fin_scan with the judgement of one poll as a parameter *)
 Fixpoint peer_fin_scan_gen (J : list chdr -> fstep -> bool) (tr : list fstep) (pending : option (list chdr))
@@ -77,10 +79,9 @@ Definition c17_peer_fin_ok2 (cfg : vconfig) (tr : list fstep) : bool :=
 (* the guard under which the predicate AS WRITTEN holds: no poll panics, and no poll starts with consumed
    slots still waiting in the reassembly queue *)
 Definition c17_peer_fin_guard_step (st : fstep) : bool :=
-  match fs_event st, fs_result st with
-  | FePoll _, FrPoll PollPanic _ _ _ => false
-  | FePoll _, _ => f_rx_ff (fs_pre st) =? 0
-  | _, _ => true
+  match fs_event st with
+  | FePoll _ => negb (is_panic_result (fs_result st)) && (f_rx_ff (fs_pre st) =? 0)
+  | _ => true
   end.
 
 Definition c17_peer_fin_guarded (cfg : vconfig) (tr : list fstep) : bool :=
